@@ -377,7 +377,9 @@ def run(report, p):
                 # every path from the T edge back to a loop head / exit passes an assignment .action = 'verified' or raises
                 fixers = {n.id for n in g.nodes if n.kind == "stmt" and isinstance(n.ast, ast.Assign) and any(isinstance(x, ast.Attribute) and x.attr == "action" for x in n.ast.targets) and p.fold(n.ast.value, v) == "verified"}
                 loops = {n.id for n in g.nodes if n.kind == "loop"} | {g.exit.id}
-                starts = [(m, l) for m, l in t.succ if l == "T"]
+                from .common import branch_where
+
+                starts = [(m, l) for m, l in t.succ if l == branch_where(t.ast, True)]  # the branch on which the action IS 'new'
                 path = g.find_path(t, loops, avoid=fixers, first_edges=starts)
                 r6.check(path is None, v, t.ast, "an entry marked 'new' can leave the validator without being promoted to 'verified' or aborting", witness=g.fmt_path(path) if path else None)
         for cf, call in callers_of(p, mw.qual):
@@ -409,7 +411,18 @@ def refine_templates(p, report, pr, mdoc, lemma_ignore):
                 recv = n.targets[0].value
                 src = resolve_local(f, recv)
                 sites += 1
-                good = isinstance(src, ast.Call) and isinstance(src.func, ast.Attribute) and src.func.attr == "find_or_create_media_hash_for_path" and len(src.args) >= 2 and isinstance(src.args[1], ast.Constant) and src.args[1].value is None
+
+                def created_without_size(v):
+                    return isinstance(v, ast.Call) and isinstance(v.func, ast.Attribute) and v.func.attr == "find_or_create_media_hash_for_path" and len(v.args) >= 2 and isinstance(v.args[1], ast.Constant) and v.args[1].value is None
+
+                good = created_without_size(src)
+                if not good and isinstance(recv, ast.Name):
+                    # several bindings (e.g. `x = None` on the path where nothing is recorded): every non-None one creates the record without size
+                    binds = [b.value for b in walk_no_nested(f.node) if isinstance(b, ast.Assign) and len(b.targets) == 1 and isinstance(b.targets[0], ast.Name) and b.targets[0].id == recv.id]
+                    real = [b for b in binds if not (isinstance(b, ast.Constant) and b.value is None)]
+                    good = bool(real) and all(created_without_size(b) for b in real)
+                    if good:
+                        src = real[0]
                 rs.instance(f, n, f"directory record created: {norm(src)[:80]}")
                 rs.check(good, f, n, "a record marked is_directory is not created with the literal size None: <directoryhash>/<path> could get a size attribute the schema does not declare", construct=f"is_directory record: {norm(src)[:80]}")
                 ok8 = ok8 and good
